@@ -16,7 +16,7 @@ Lemma model_members_unfold tm t f l :
   exists o, class_list (fuel_of tm) tm t f l = Ok o /\ model_members tm t f l = member_names o.
 Proof.
   destruct (class_list_terminates tm t f l) as [o Ho]. exists o. split; [exact Ho|].
-  unfold model_members. rewrite Ho. reflexivity.
+  unfold model_members, model_members_v. unfold class_list in Ho. rewrite Ho. reflexivity.
 Qed.
 
 Lemma resolve_model_noncyclic leaf tm t f :
@@ -56,14 +56,14 @@ Theorem index_step_closure tm t f l :
   cyclic_alias leaf_arr tm t f = false -> cyclic_alias leaf_val tm t f = false ->
   exists r o, index_rel tm t f r /\ complete_at tm (t, f, l) [None] = Ok o /\
     match r with
-    | Some e => shadow_free tm e f = true -> forall x, In x o <-> members_spec tm e x
+    | Some e => forall x, In x o <-> members_spec tm e x
     | None => o = []
     end.
 Proof.
   intros Hwf Hv Ha Hb. destruct (index_step_members tm t f l Hv Ha Hb) as [r [Hr Hc]].
   exists r. eexists. split; [exact Hr|]. split; [exact Hc|].
   destruct r as [e|]; [|reflexivity].
-  intros Hsf x. apply members_eq_closure; assumption.
+  intros x. apply members_full; assumption.
 Qed.
 
 (* ---------- the same step for the FIXED variant: no cyclicity guard ---------- *)
@@ -84,6 +84,21 @@ Proof.
     destruct (model_members_unfold tm e f l) as [o [Ho Hm]]; rewrite Ho, Hm; reflexivity.
 Qed.
 
+(* with the closure theorem: after `v[1].` exactly the members of the element type the specification computes
+   (no cyclicity guard, no shadowing guard: both defects are repaired in the deployed model) *)
+Theorem index_step_closure_fixed tm t f l :
+  wf_tm tm -> c15_fixed_variant = true ->
+  exists o, complete_at tm (t, f, l) [None] = Ok o /\
+    match index_exec tm t f with
+    | Some e => forall x, In x o <-> members_spec tm e x
+    | None => o = []
+    end.
+Proof.
+  intros Hwf Hv. eexists. split; [apply index_step_members_fixed; exact Hv|].
+  destruct (index_exec tm t f) as [e|]; [|reflexivity].
+  intros x. apply members_full; assumption.
+Qed.
+
 (* the executable index specification is the specification wherever the latter has an answer *)
 Theorem index_exec_correct tm t f r : wf_tm tm -> index_rel tm t f r -> index_exec tm t f = r.
 Proof.
@@ -91,4 +106,170 @@ Proof.
   - rewrite (resolve_fx_correct leaf_arr tm Hwf t f _ Ha). reflexivity.
   - rewrite (resolve_fx_correct leaf_arr tm Hwf t f _ Ha), (resolve_fx_correct leaf_val tm Hwf t f _ Hb).
     destruct r; reflexivity.
+Qed.
+
+(* ================================================================== the two observables of the property, whole *)
+(* member completion after `v.`: exactly the closure (deployed model, no guard) *)
+Theorem complete_full tm t f l :
+  wf_tm tm -> exists o, complete_at tm (t, f, l) [] = Ok o /\ forall x, In x o <-> members_spec tm t x.
+Proof.
+  intros Hwf. destruct (model_members_unfold tm t f l) as [o [Ho Hm]].
+  exists (member_names o). split.
+  - unfold complete_at, follow. cbn -[class_list fuel_of]. rewrite Ho. reflexivity.
+  - intros x. rewrite <- Hm. apply members_full. exact Hwf.
+Qed.
+
+Lemma field_of_some d k fl : field_of d k = Some fl -> In fl (class_fields d) /\ f_name fl = k.
+Proof.
+  unfold field_of. intros H. apply find_some in H. destruct H as [Hin He].
+  split; [apply in_rev; exact Hin|apply N.eqb_eq; exact He].
+Qed.
+
+Lemma field_of_none d k : field_of d k = None -> forall fl, In fl (class_fields d) -> f_name fl <> k.
+Proof.
+  unfold field_of. intros H fl Hin He.
+  apply in_rev in Hin. pose proof (find_none _ _ H fl Hin) as Hf. cbn beta in Hf.
+  apply N.eqb_neq in Hf. contradiction.
+Qed.
+
+Lemma first_with_some o k d fl : first_with o k = Some (d, fl) -> In d o /\ field_of d k = Some fl.
+Proof.
+  induction o as [|a r IH]; simpl; [discriminate|].
+  destruct (field_of a k) as [fl'|] eqn:E.
+  - intros H. injection H as <- <-. split; [left; reflexivity|exact E].
+  - intros H. destruct (IH H) as [H1 H2]. split; [right; exact H1|exact H2].
+Qed.
+
+Lemma first_with_none o k : first_with o k = None -> forall d, In d o -> field_of d k = None.
+Proof.
+  induction o as [|a r IH]; simpl; [intros _ d []|].
+  destruct (field_of a k) as [fl'|] eqn:E; [discriminate|].
+  intros H d [<-|Hd]; [exact E|apply IH; assumption].
+Qed.
+
+(* go-to-definition on `v.k`: lands on a ---@field k line of a reachable class declaration whenever the closure has
+   a member k at all, and answers "no field" only when it has none *)
+Theorem define_full tm t f l k :
+  wf_tm tm -> c15_fixed_variant = true ->
+  (exists loc, define_at tm (t, f, l) [] k = Ok (Some loc) /\ define_spec tm t k loc) \/
+  (define_at tm (t, f, l) [] k = Ok None /\ forall loc, ~ define_spec tm t k loc).
+Proof.
+  intros Hwf Hv. destruct (class_list_terminates tm t f l) as [o Ho].
+  unfold define_at, follow. cbn -[class_list fuel_of first_with resolve_model]. rewrite Ho.
+  cbn -[class_list fuel_of first_with resolve_model].
+  destruct (first_with o k) as [[d fl]|] eqn:Ef.
+  - left. exists (d_file d, f_line fl). split; [reflexivity|].
+    apply first_with_some in Ef. destruct Ef as [Hd Hf]. apply field_of_some in Hf. destruct Hf as [Hin Hn].
+    exists d, fl. split; [eapply class_list_sound; eassumption|]. split; [exact Hin|]. split; [exact Hn|reflexivity].
+  - right. split.
+    + rewrite !(resolve_model_fixed _ _ _ _ Hv).
+      destruct (resolve_fx_total leaf_arr tm t f) as [ra Ea]. rewrite Ea.
+      destruct (resolve_fx_total leaf_val tm t f) as [rb Eb].
+      destruct ra as [e|]; cbn [rbind]; [reflexivity|]. rewrite Eb. reflexivity.
+    + intros loc [d [fl [Hr [Hin [Hn _]]]]].
+      assert (Hk : is_class d).
+      { unfold class_fields in Hin. destruct (d_kind d) as [ps fs|t0] eqn:Hkd; [exists ps, fs; exact Hkd|destruct Hin]. }
+      assert (Hd : In d o) by (eapply class_list_complete; eassumption).
+      apply (field_of_none d k (first_with_none o k Ef d Hd) fl Hin Hn).
+Qed.
+
+(* ================================================================== member prefixes of any length *)
+(* the indexing part of symbolHasSubKey in the deployed model = the executable index specification *)
+Lemma index_model tm t f (l : N) :
+  c15_fixed_variant = true ->
+  (do a <- resolve_model leaf_arr tm t f;
+   match a with
+   | Some e => Ok (Some (e, f, l))
+   | None => do v <- resolve_model leaf_val tm t f;
+             match v with Some e => Ok (Some (e, f, l)) | None => Ok None end
+   end) = Ok (match index_exec tm t f with Some e => Some (e, f, l) | None => None end).
+Proof.
+  intros Hv. rewrite !(resolve_model_fixed _ _ _ _ Hv).
+  destruct (resolve_fx_total leaf_arr tm t f) as [ra Ea].
+  destruct (resolve_fx_total leaf_val tm t f) as [rb Eb].
+  unfold index_exec. rewrite Ea. cbn [rbind].
+  destruct ra as [e|]; [reflexivity|]. rewrite Eb. cbn [rbind]. destruct rb; reflexivity.
+Qed.
+
+Lemma no_field_no_define tm t f l o k :
+  wf_tm tm -> class_list (fuel_of tm) tm t f l = Ok o -> first_with o k = None ->
+  forall loc, ~ define_spec tm t k loc.
+Proof.
+  intros Hwf Ho Ef loc [d [fl [Hr [Hin [Hn _]]]]].
+  assert (Hk : is_class d).
+  { unfold class_fields in Hin. destruct (d_kind d) as [ps fs|t0] eqn:Hkd; [exists ps, fs; exact Hkd|destruct Hin]. }
+  assert (Hd : In d o) by (eapply class_list_complete; eassumption).
+  apply (field_of_none d k (first_with_none o k Ef d Hd) fl Hin Hn).
+Qed.
+
+(* one step of the deployed model is one step of the specification *)
+Lemma sub_key_step tm t f l key :
+  wf_tm tm -> c15_fixed_variant = true ->
+  (exists k d fl, key = Some k /\ reachable_def tm t d /\ In fl (class_fields d) /\ f_name fl = k /\
+                  sub_key tm (t, f, l) key = Ok (Some (f_ty fl, d_file d, d_line d))) \/
+  (no_member tm t key /\
+   sub_key tm (t, f, l) key = Ok (match index_exec tm t f with Some e => Some (e, f, l) | None => None end)).
+Proof.
+  intros Hwf Hv. unfold sub_key. destruct key as [k|].
+  - destruct (class_list_terminates tm t f l) as [o Ho]. rewrite Ho. cbn [rbind].
+    destruct (first_with o k) as [[d fl]|] eqn:Ef.
+    + left. exists k, d, fl. split; [reflexivity|].
+      apply first_with_some in Ef. destruct Ef as [Hd Hf]. apply field_of_some in Hf. destruct Hf as [Hin Hn].
+      split; [eapply class_list_sound; eassumption|]. split; [exact Hin|]. split; [exact Hn|reflexivity].
+    + right. split; [exact (no_field_no_define tm t f l o k Hwf Ho Ef)|].
+      apply index_model. exact Hv.
+  - right. split; [exact I|]. cbn [rbind]. apply index_model. exact Hv.
+Qed.
+
+(* following a prefix never fails and follows the specification *)
+Theorem follow_path tm :
+  wf_tm tm -> c15_fixed_variant = true ->
+  forall path s, exists r, follow tm s path = Ok r /\ path_rel tm s path r.
+Proof.
+  intros Hwf Hv. induction path as [|key rest IH]; intros [[t f] l].
+  - exists (Some (t, f, l)). split; [reflexivity|constructor].
+  - cbn [follow].
+    destruct (sub_key_step tm t f l key Hwf Hv) as [[k [d [fl [-> [Hr [Hin [Hn E]]]]]]]|[Hno E]]; rewrite E; cbn [rbind].
+    + destruct (IH (f_ty fl, d_file d, d_line d)) as [r [Er Pr]]. exists r. split; [exact Er|].
+      eapply PR_member; eassumption.
+    + destruct (index_exec tm t f) as [e|] eqn:Ei.
+      * destruct (IH (e, f, l)) as [r [Er Pr]]. exists r. split; [exact Er|]. eapply PR_index; eassumption.
+      * exists None. split; [reflexivity|]. apply PR_stuck; assumption.
+Qed.
+
+(* completion after `v<path>.`: exactly the closure of the type the prefix denotes *)
+Theorem complete_path_full tm s path :
+  wf_tm tm -> c15_fixed_variant = true ->
+  exists r o, path_rel tm s path r /\ complete_at tm s path = Ok o /\
+    match r with
+    | Some (t', _, _) => forall x, In x o <-> members_spec tm t' x
+    | None => o = []
+    end.
+Proof.
+  intros Hwf Hv. destruct (follow_path tm Hwf Hv path s) as [r [Er Pr]].
+  unfold complete_at. rewrite Er. cbn [rbind].
+  destruct r as [[[t' f'] l']|].
+  - destruct (model_members_unfold tm t' f' l') as [o [Ho Hm]].
+    exists (Some (t', f', l')), (member_names o). split; [exact Pr|]. split.
+    + rewrite Ho. reflexivity.
+    + intros x. rewrite <- Hm. apply members_full. exact Hwf.
+  - exists None, []. split; [exact Pr|]. split; reflexivity.
+Qed.
+
+(* go-to-definition on `v<path>.k` *)
+Theorem define_path_full tm s path k :
+  wf_tm tm -> c15_fixed_variant = true ->
+  exists r, path_rel tm s path r /\
+    match r with
+    | Some (t', _, _) =>
+        (exists loc, define_at tm s path k = Ok (Some loc) /\ define_spec tm t' k loc) \/
+        (define_at tm s path k = Ok None /\ forall loc, ~ define_spec tm t' k loc)
+    | None => define_at tm s path k = Ok None
+    end.
+Proof.
+  intros Hwf Hv. destruct (follow_path tm Hwf Hv path s) as [r [Er Pr]].
+  exists r. split; [exact Pr|]. unfold define_at. rewrite Er. cbn [rbind].
+  destruct r as [[[t' f'] l']|]; [|reflexivity].
+  pose proof (define_full tm t' f' l' k Hwf Hv) as Hd.
+  unfold define_at, follow in Hd. cbn [rbind] in Hd. exact Hd.
 Qed.
